@@ -5,6 +5,7 @@ package props
 import (
 	"encoding/json"
 	"fmt"
+	"github.com/ethereum/go-ethereum/core/types/goattypes"
 	"reflect"
 	"sort"
 	"testing"
@@ -29,12 +30,13 @@ import (
 
 // ExportCase: a history in one of the three worlds, stopped somewhere, then exported.
 type ExportCase struct {
-	Source string   `json:"source"` // locking | relayer | withdrawals
-	Lock   LockCase `json:"lock,omitempty"`
-	Rel    RelCase  `json:"rel,omitempty"`
-	Wd     WdCase   `json:"wd,omitempty"`
-	Stop   int      `json:"stop"` // number of blocks to execute (mod length)
-	Extra  int      `json:"extra"`
+	Source string    `json:"source"` // locking | relayer | withdrawals | params
+	Lock   LockCase  `json:"lock,omitempty"`
+	Rel    RelCase   `json:"rel,omitempty"`
+	Wd     WdCase    `json:"wd,omitempty"`
+	Par    ParamCase `json:"par,omitempty"`
+	Stop   int       `json:"stop"` // number of blocks to execute (mod length)
+	Extra  int       `json:"extra"`
 }
 
 // normalise makes null, [] and absent equal so that encoding details are not differences.
@@ -356,6 +358,8 @@ func classifyImportError(s string) string {
 		return "pending-voter-key"
 	case containsStr(s, "validator set"):
 		return "validator-set-mismatch"
+	case containsStr(s, "invalid deposit tax"), containsStr(s, "MaxDepositTax is too large"):
+		return "deposit-tax-pair"
 	}
 	return "other"
 }
@@ -406,6 +410,35 @@ func runExportCase(c ExportCase) Outcome {
 			o.Evals++
 		}
 		o.Fail = checkExportImport(w.f.sim.Node, w.f.sim.Spec, w.f.sim.Keys, &o, cont)
+	case "params":
+		// bridge parameters changed by execution-layer requests, then exported
+		f, err := newDepFixture(c.Par.Genesis, c.Par.Keys, c.Par.Blocks)
+		if err != nil {
+			o.Classes = append(o.Classes, "config-rejected-by-genesis")
+			return o
+		}
+		defer f.close()
+		stop := 1 + abs(c.Stop)%len(c.Par.Rounds)
+		for _, r := range c.Par.Rounds[:stop] {
+			br := goattypes.BridgeRequests{}
+			for _, tx := range r.Taxes {
+				br.DepositTax = append(br.DepositTax, &goattypes.DepositTaxRequest{Rate: tx.Rate, Max: tx.Max})
+			}
+			for _, n := range r.Confs {
+				br.Confirmation = append(br.Confirmation, &goattypes.ConfirmationNumberRequest{Number: n})
+			}
+			for _, m := range r.Mins {
+				br.MinDeposit = append(br.MinDeposit, &goattypes.MinDepositRequest{Satoshi: m})
+			}
+			res, err := f.sim.Step(world.StepOpts{DT: 5 * time.Second, Proposer: -1, Eth: world.EthBlockOpts{Plan: world.BuildPlan{Requests: br.Encode()}}})
+			if err != nil || res.Resp.TxResults[0].Code != 0 {
+				o.Classes = append(o.Classes, "aborted:block-failed")
+				return o
+			}
+			o.Evals++
+		}
+		o.Fail = checkExportImport(f.sim.Node, f.sim.Spec, f.sim.Keys, &o, cont)
+		o.NonTrivial = true
 	default:
 		w, err := newWdWorld(c.Wd)
 		if err != nil {
@@ -428,12 +461,22 @@ func runExportCase(c ExportCase) Outcome {
 }
 
 func genExportCase(t *rapid.T) ExportCase {
-	c := ExportCase{Source: rapid.SampledFrom([]string{"locking", "locking", "relayer", "relayer", "withdrawals"}).Draw(t, "source"), Stop: rapid.IntRange(0, 60).Draw(t, "stop")}
+	c := ExportCase{Source: rapid.SampledFrom([]string{"locking", "locking", "locking", "relayer", "relayer", "relayer", "withdrawals", "withdrawals", "params"}).Draw(t, "source"), Stop: rapid.IntRange(0, 60).Draw(t, "stop")}
 	switch c.Source {
 	case "locking":
 		c.Lock = genLockCase("C18", 30)(t)
 	case "relayer":
 		c.Rel = genRelCase("C16")(t)
+	case "params":
+		c.Par = genParamCase(t)
+		// mostly pairs that genesis validation accepts as well (rate 1..9999 with cap 1..1e8, or 0/0)
+		for i := range c.Par.Rounds {
+			for j := range c.Par.Rounds[i].Taxes {
+				if rapid.IntRange(0, 3).Draw(t, "importable") > 0 {
+					c.Par.Rounds[i].Taxes[j] = TaxReq{Rate: rapid.SampledFrom([]uint64{1, 20, 9999}).Draw(t, "okRate"), Max: rapid.SampledFrom([]uint64{1, 1000, 100_000_000}).Draw(t, "okMax")}
+				}
+			}
+		}
 	default:
 		c.Wd = genWdCase(t)
 	}
@@ -444,7 +487,7 @@ func TestC18_ExportImport(t *testing.T) {
 	RunProp(t, Prop[ExportCase]{
 		ID: "C18", Name: "export-import", Quick: 640, Thor: 10_000,
 		Gen: genExportCase, Run: runExportCase,
-		Rule: "a history in the locking world (validators pending/active/downgraded/tombstoned/inactive incl. zero-power ones, pending and matured unlocks, claims queued), the relayer world (pending, on-boarding and off-boarding voters, consumed sequences) or the withdrawal world (pending/canceling/processing/paid/cancelled withdrawals, processing batches with fee-bumped candidates, refund/paid queues, voted hashes not yet handed over) is stopped at a generated block; ExportAppStateAndValidators E1; a fresh application is initialised with E1's state, validators, height and the consensus parameters (must succeed; the SDK compares requested and returned validators); the module manager's export of the just-initialised state must equal E1 module by module (null/[]/absent normalised); every module query over every key named in E1 answers identically; the raw module stores are equal (except zero-power ranking entries and the order of the relayer's boarding queue, whose content is compared as sets); and, reported as a separate clause, the new chain must run 3 blocks from the exported height with the empty last commit CometBFT supplies and with validator updates acceptable to a CometBFT set seeded from InitChain; non-trivial = the exported state shows >= 3 of the listed interesting features; evaluations count history blocks",
+		Rule: "a history in the locking world (validators pending/active/downgraded/tombstoned/inactive incl. zero-power ones, pending and matured unlocks, claims queued), the relayer world (pending, on-boarding and off-boarding voters, consumed sequences) the bridge parameters after execution-layer tax / confirmation / minimum-deposit requests, or the withdrawal world (pending/canceling/processing/paid/cancelled withdrawals, processing batches with fee-bumped candidates, refund/paid queues, voted hashes not yet handed over) is stopped at a generated block; ExportAppStateAndValidators E1; a fresh application is initialised with E1's state, validators, height and the consensus parameters (must succeed; the SDK compares requested and returned validators); the module manager's export of the just-initialised state must equal E1 module by module (null/[]/absent normalised); every module query over every key named in E1 answers identically; the raw module stores are equal (except zero-power ranking entries and the order of the relayer's boarding queue, whose content is compared as sets); and, reported as a separate clause, the new chain must run 3 blocks from the exported height with the empty last commit CometBFT supplies and with validator updates acceptable to a CometBFT set seeded from InitChain; non-trivial = the exported state shows >= 3 of the listed interesting features; evaluations count history blocks",
 	})
 }
 
